@@ -13,6 +13,11 @@ def key(conj, rec):
     return "%s:%s:k=%s" % (conj, rec["op"], rec.get("k"))
 
 
+def _layouts():
+    from .c05 import export
+    return export()[0]
+
+
 def api_replay(prop, cmd, module, cfg, tier, replay, keyfn, env):
     """Replay = deterministic regeneration of the recorded run (same seed / tier) filtered to the
     recorded sequence numbers, against the current tree, then validated again."""
@@ -21,7 +26,7 @@ def api_replay(prop, cmd, module, cfg, tier, replay, keyfn, env):
     os.environ["VERIF_SEED"] = str(info.get("seed", vflib.seed()))
     ks = info.get("ks") or [info["record"]["k"]]
     summ = common.harness_traces(cmd, info.get("tier", tier), shards=1, env=env,
-                                 extra_args=["-x", "only=" + ",".join(str(k) for k in ks)])
+                                 extra_args=["-x", "layouts=%s;only=%s" % (_layouts(), ",".join(str(k) for k in ks))])
     common.validate(v, module, cfg, summ, keyfn)
     return v.finish(write_evidence=False)
 
@@ -39,7 +44,9 @@ def run(tier, replay=None):
         "dates are logged as the civil date the argument value holds (time.Time.Date() of the value)",
     ]
     common.model_checks(v, [("MC_Wire", "MC_Wire.cfg", {"workers": 1}, "pass")])
-    summ = common.harness_traces("c01", tier, shards=16 if tier == "thorough" else 8, env=env)
+    from .c05 import export
+    layouts, _ = export()
+    summ = common.harness_traces("c01", tier, shards=16 if tier == "thorough" else 8, env=env, extra_args=["-x", "layouts=" + layouts])
     common.validate(v, "Trace_Api", "Trace_Api.cfg", summ, key)
     # "exactly one ... request reaches the network": counted at the sockets of a loopback farm, below the driver interface
     common.kept_pass(v, tier)
